@@ -307,6 +307,37 @@ ThmPkt(k) ==
           /\ TagDecode(e[1]).ok /\ TagDecode(e[1]).new
           /\ d.hl > 0 /\ ~d.part /\ d.len = <<0, Len(e) - 1 - d.hl>>
 
+(* sigdec: v4 signature packets whose hashed area starts with a filler subpacket (private type 100..102) of every *)
+(* critical length, written in every length form that can express it, followed by creation time, issuer and key  *)
+(* flags: the library's decoder must find the fields behind the filler                                           *)
+FillLens == <<0, 1, 189, 190, 191, 192, 300, 8382, 8383, 8384, 9000, 16318>>
+FormsFor(n) == (IF n < 192 THEN {1} ELSE {}) \cup (IF n >= 192 /\ n <= 16319 THEN {2} ELSE {}) \cup {5}
+CaseSigDec(k) ==
+  LET fl == At(FillLens, k)
+      form == At(<<1, 2, 5>>, k \div Len(FillLens))
+      valid == form \in FormsFor(fl + 1)
+      variant == k \div (3 * Len(FillLens))
+      pk == IF variant % 2 = 0 THEN 17 ELSE 1
+      ty == At(<<0, 1, 19, 24, 32>>, variant)
+      ha == At(<<8, 10, 2>>, variant)
+      flags == <<At(<<3, 12, 32>>, variant)>>
+      filler == IF valid THEN SubPktForm(form, 100 + (k % 3), FALSE, Pat(fl, Seed + k)) ELSE <<>>
+      hs == filler \o SubPkt(2, FALSE, BE32(Time0[1], Time0[2])) \o SubPkt(16, FALSE, KeyId(k)) \o SubPkt(27, FALSE, flags)
+      left == Pat(2, k)
+      mpis == IF pk = 17 THEN <<Mp(k, 5), Mp(k + 1, 6)>> ELSE <<Mp(k + 4, 6)>>
+      os == Packet(2, BodySigV4(ty, pk, ha, hs, <<>>, left, mpis))
+  IN [op |-> "sigdec", i |-> i, in |-> [os |-> os, pk |-> pk, fill |-> fl, form |-> IF valid THEN form ELSE 0],
+      exp |-> [ret |-> 2, v |-> 4, type |-> ty, pk |-> pk, hash |-> ha, time |-> Time0, issuer |-> KeyId(k), flags |-> flags,
+               hlen |-> Len(hs), left |-> left, mpis |-> [j \in 1..Len(mpis) |-> StripZ(mpis[j])]]]
+NSigDec == 3 * Len(FillLens) * 5
+ThmSigDec(k) ==
+  LET c == CaseSigDec(k)
+      body == Drop(c.in.os, 1 + LenNewDecode(Tail(c.in.os)).hl)
+      h == ParseHashed(SubSeq(body, 1, 6 + c.exp.hlen))
+  IN /\ h.ok /\ h.v = 4 /\ h.type = c.exp.type
+     /\ \A j \in 1..Len(h.subs) : SubBodyOk(h.subs[j])
+     /\ HasOne(h.subs, 2, BE32(Time0[1], Time0[2])) /\ HasOne(h.subs, 16, c.exp.issuer) /\ HasOne(h.subs, 27, c.exp.flags)
+
 -----------------------------------------------------------------------------
 Case == CASE Family = "r64b" -> CaseR64(B2(i))
           [] Family = "r64p" -> CaseR64P(i)
@@ -320,6 +351,7 @@ Case == CASE Family = "r64b" -> CaseR64(B2(i))
           [] Family = "mpidec" -> CaseMpiDec(i)
           [] Family = "s2kcount" -> CaseS2K(i)
           [] Family = "pkt" -> CasePkt(i)
+          [] Family = "sigdec" -> CaseSigDec(i)
 Thm == CASE Family = "r64b" -> ThmR64(B2(i))
          [] Family = "r64p" -> ThmR64(Pat(i, Seed))
          [] Family = "armorbad" -> TRUE
@@ -332,9 +364,11 @@ Thm == CASE Family = "r64b" -> ThmR64(B2(i))
          [] Family = "mpidec" -> TRUE
          [] Family = "s2kcount" -> ThmS2K(i)
          [] Family = "pkt" -> ThmPkt(i)
+         [] Family = "sigdec" -> ThmSigDec(i)
 (* number of cases of a family (Hi in the cfg files is computed from these by checks/c19.py: TLC evaluates them) *)
 FamilySize == [r64b |-> 65793, armorbad |-> NArmorBad, len |-> NLen + 1, lendec |-> NLenDec, tagenc |-> 64,
-               extract |-> NBodyExtract, partial |-> NPartial, mpi |-> NMpi, mpidec |-> NMpiDec, s2kcount |-> 256]
+               extract |-> NBodyExtract, partial |-> NPartial, mpi |-> NMpi, mpidec |-> NMpiDec, s2kcount |-> 256,
+               sigdec |-> NSigDec]
 (* the index range actually enumerated: a family of fixed size ends at its last case *)
 Last == IF Family \in DOMAIN FamilySize THEN Min(Hi, FamilySize[Family] - 1) ELSE Hi
 
